@@ -23,5 +23,8 @@ Definition lf_wrap_u (bits x : Z) : Z := x mod 2 ^ bits.
 Definition lf_wrap_s (bits x : Z) : Z := (x + 2 ^ (bits - 1)) mod 2 ^ bits - 2 ^ (bits - 1).
 Definition lf_b2z (b : bool) : Z := if b then 1 else 0.
 Definition lf_z2b (x : Z) : bool := negb (x =? 0).
+(* QIntC::to_T(x) (include/qpdf/QIntC.hh, IntConverter): x when lo <= x <= hi (the range of T); otherwise the C++ throws
+   std::range_error - the definition then yields hi + 1, a value no T holds, so that a tie theorem cannot hold there by accident *)
+Definition lf_checked (lo hi x : Z) : Z := if (lo <=? x) && (x <=? hi) then x else hi + 1.
 (* table[i]; an index outside the table is undefined in C++ and reads 0 here *)
 Definition lf_nth (l : list Z) (i : Z) : Z := if i <? 0 then 0 else nth (Z.to_nat i) l 0.
